@@ -104,6 +104,52 @@ Exp_OverlapSp(e) ==
   IN  <<b, b>>
 X_OverlapSp(e) == Ok(e) /\ e.r = Exp_OverlapSp(e)
 
+\* ---- C01 ------------------------------------------------------------------
+PtMatch(p, id, h, v, ab) ==
+  /\ id[1] = h /\ id[4] = v
+  /\ id[2] = PointX(p, h, ab)
+  /\ LatDecided(p, h)                       \* the driver only offers points whose row the model decides
+  /\ id[3] = PointY(p, h)
+  /\ id[5] = PointF(p, v)
+  /\ (ab => 0 <= id[2] /\ id[2] < Pow2(h) /\ 0 <= id[3] /\ id[3] < Pow2(h))
+Exp_PointsExt(e) == [i \in 1..Len(e.a.pts) |-> PointToVoxel(e.a.pts[i], e.a.h, e.a.v, e.w.abs)]
+X_PointsExt(e) ==
+  IF ZoomOk(RealH(e, e.a.h)) /\ ZoomOk(RealV(e, e.a.v))
+  THEN /\ Ok(e) /\ Len(e.r) = Len(e.a.pts)              \* length and order of the input list
+       /\ \A i \in 1..Len(e.r) : PtMatch(e.a.pts[i], e.r[i], e.a.h, e.a.v, e.w.abs)
+  ELSE Err(e) /\ e.r = <<>>
+Exp_PointsSp(e) == [i \in 1..Len(e.a.pts) |-> ExtToSp(PointToVoxel(e.a.pts[i], e.a.z, e.a.z, e.w.abs))]
+X_PointsSp(e) ==
+  IF ZoomOk(RealH(e, e.a.z))
+  THEN /\ Ok(e) /\ Len(e.r) = Len(e.a.pts)
+       /\ \A i \in 1..Len(e.r) : PtMatch(e.a.pts[i], SpToExt(e.r[i]), e.a.z, e.a.z, e.w.abs)
+  ELSE Err(e) /\ e.r = <<>>
+
+\* ---- C02 ------------------------------------------------------------------
+X_Vertex(e) == Ok(e) /\ e.r = Vertices(e.a.id)
+\* centre: exact midpoint in longitude and altitude; latitude within the 1e-10
+\* degree storage resolution of the midpoint of the reported edges (units 1e-12);
+\* converting it back at the same zooms returns the voxel
+X_Centre(e) == /\ Ok(e)
+               /\ e.r.cu = CentreU(e.a.id) /\ e.r.ca = CentreA(e.a.id)
+               /\ e.r.latdev <= 101
+               /\ e.r.back = <<e.a.id>>
+\* which corners of the two voxels coincide, per direction (east, south, up)
+FaceMapA == << <<2, 3, 6, 7>>, <<4, 3, 8, 7>>, <<5, 6, 7, 8>> >>
+FaceMapB == << <<1, 4, 5, 8>>, <<1, 2, 5, 6>>, <<1, 2, 3, 4>> >>
+X_Face(e) == /\ Ok(e) /\ Len(e.r.a) = 8 /\ Len(e.r.b) = 8
+             /\ \A i \in 1..4 : e.r.a[FaceMapA[e.a.dir + 1][i]] = e.r.b[FaceMapB[e.a.dir + 1][i]]
+
+\* ---- C09 (relations between real calls, arbitrary float64 points) ---------
+Origin == <<0, 0, 0, 0, 0>>
+X_Hier(e) == /\ Ok(e)
+             /\ e.r.coarse = <<Origin>>                       \* window anchored at the coarse voxel
+             /\ Len(e.r.fine) = 1
+             /\ e.r.fine[1][1] = e.a.dh /\ e.r.fine[1][4] = e.a.dv
+             /\ Ancestor(e.r.fine[1], 0, 0) = Origin           \* nested
+             /\ e.r.zoomed = <<Origin>>                       \* zoom-out of the fine ID is the coarse ID
+             /\ e.r.ov = <<TRUE, TRUE>>                       \* and they overlap, either order
+
 \* ---- dispatch -------------------------------------------------------------
 Explains(e) ==
   /\ e.bad = ""
@@ -127,6 +173,12 @@ Explains(e) ==
       [] e.op = "MergeSp"              -> X_MergeSp(e)
       [] e.op \in {"OverlapExt", "OverlapExtArr"} -> X_OverlapExt(e)
       [] e.op \in {"OverlapSp", "OverlapSpArr"}   -> X_OverlapSp(e)
+      [] e.op = "PointsExt"            -> X_PointsExt(e)
+      [] e.op = "PointsSp"             -> X_PointsSp(e)
+      [] e.op \in {"VertexExt", "VertexSp"} -> X_Vertex(e)
+      [] e.op \in {"CentreExt", "CentreSp"} -> X_Centre(e)
+      [] e.op = "Face"                 -> X_Face(e)
+      [] e.op = "Hier"                 -> X_Hier(e)
       [] OTHER -> FALSE
 
 \* what the specification expected (diagnostics for a rejected line)
@@ -151,6 +203,12 @@ Expected(e) ==
     [] e.op = "MergeSp"              -> Exp_MergeSp(e)
     [] e.op \in {"OverlapExt", "OverlapExtArr"} -> Exp_OverlapExt(e)
     [] e.op \in {"OverlapSp", "OverlapSpArr"}   -> Exp_OverlapSp(e)
+    [] e.op = "PointsExt"            -> Exp_PointsExt(e)
+    [] e.op = "PointsSp"             -> Exp_PointsSp(e)
+    [] e.op \in {"VertexExt", "VertexSp"} -> Vertices(e.a.id)
+    [] e.op \in {"CentreExt", "CentreSp"} -> [cu |-> CentreU(e.a.id), ca |-> CentreA(e.a.id), back |-> <<e.a.id>>]
+    [] e.op = "Face"                 -> "shared corners must be bit-identical"
+    [] e.op = "Hier"                 -> "coarse = zoomed = ancestor(fine), overlapping"
     [] OTHER -> "no-spec-operator"
 
 \* ---- machine events (histories) -------------------------------------------
